@@ -59,6 +59,9 @@ class Frame:
 _NO_RESET = bool(os.environ.get("PYVC_DEBUG_NO_MODULE_RESET"))     # diagnosis only: never set in a registered check
 
 
+UNIT_WALL_S = float(os.environ.get("PYVC_UNIT_WALL_S", "2400"))   # exploration of ONE unit (the slowest on the unchanged tree: ~20 s; a 256-path refactoring: ~730 s)
+
+
 class Path:
     """One execution path: path condition, decisions, ghost trace."""
 
@@ -277,6 +280,8 @@ class Interp:
         work = [[]]
         results = []
         t0 = time.time()
+        time_budget = time_budget or UNIT_WALL_S
+        self.deadline = t0 + time_budget
         while work:
             prefix = work.pop()
             p = Path(prefix)
